@@ -547,7 +547,7 @@ class TexNode(object):
             \item Bye
         \end{itemize}
         """
-        self.expr.remove(node.expr)
+        (self.__holder(node.expr) or self.expr).remove(node.expr)
 
     def replace_with(self, *nodes):
         r"""Replace this node in the parse tree with the provided node(s).
